@@ -67,7 +67,7 @@ theorem C08_intersection_len_partial (K : BKernel) (a b : Bitmap) (ha : a.WF) (h
   rw [Spec.sAnd_eq_filter _ _ (sorted_elems K a ha) (sorted_elems K b hb)]
 
 /-- the facts the inclusion–exclusion arithmetic needs -/
-theorem len_facts (K : BKernel) (a b : Bitmap) (ha : a.WF) (hb : b.WF) :
+theorem C08_len_facts_partial (K : BKernel) (a b : Bitmap) (ha : a.WF) (hb : b.WF) :
     len a = (elems a).length ∧ len b = (elems b).length ∧
     interLen a b = (Spec.sAnd (elems a) (elems b)).length ∧
     (Spec.sAnd (elems a) (elems b)).length ≤ (elems a).length ∧
@@ -83,7 +83,7 @@ theorem len_facts (K : BKernel) (a b : Bitmap) (ha : a.WF) (hb : b.WF) :
 /-- `union_len` (ops.rs:56): `len + other.len - intersection_len`, and the `wrapping_*` never wrap -/
 theorem C08_union_len_partial (K : BKernel) (a b : Bitmap) (ha : a.WF) (hb : b.WF) :
     unionLen a b = Spec.unionLen (elems a) (elems b) := by
-  obtain ⟨h1, h2, h3, h4, h5, h6, h7⟩ := len_facts K a b ha hb
+  obtain ⟨h1, h2, h3, h4, h5, h6, h7⟩ := C08_len_facts_partial K a b ha hb
   have h := Spec.length_sOr_add_sAnd (elems a) (elems b)
   unfold unionLen wrappingSub wrappingAdd Spec.unionLen W
   rw [h1, h2, h3]
@@ -92,7 +92,7 @@ theorem C08_union_len_partial (K : BKernel) (a b : Bitmap) (ha : a.WF) (hb : b.W
 /-- `difference_len` (ops.rs:77): the plain `-` never overflows (`some`), and the value is exact -/
 theorem C08_difference_len_partial (K : BKernel) (a b : Bitmap) (ha : a.WF) (hb : b.WF) :
     diffLen a b = some (Spec.diffLen (elems a) (elems b)) := by
-  obtain ⟨h1, h2, h3, h4, h5, h6, h7⟩ := len_facts K a b ha hb
+  obtain ⟨h1, h2, h3, h4, h5, h6, h7⟩ := C08_len_facts_partial K a b ha hb
   have h := Spec.length_sSub_add_sAnd (elems a) (elems b)
   unfold diffLen Spec.diffLen
   rw [h1, h3, if_pos h4]
@@ -101,7 +101,7 @@ theorem C08_difference_len_partial (K : BKernel) (a b : Bitmap) (ha : a.WF) (hb 
 /-- `symmetric_difference_len` (ops.rs:98) -/
 theorem C08_symmetric_difference_len_partial (K : BKernel) (a b : Bitmap) (ha : a.WF) (hb : b.WF) :
     xorLen a b = Spec.xorLen (elems a) (elems b) := by
-  obtain ⟨h1, h2, h3, h4, h5, h6, h7⟩ := len_facts K a b ha hb
+  obtain ⟨h1, h2, h3, h4, h5, h6, h7⟩ := C08_len_facts_partial K a b ha hb
   have h := Spec.length_sXor (elems a) (elems b) (sorted_elems K a ha) (sorted_elems K b hb)
   unfold xorLen wrappingSub wrappingAdd Spec.xorLen W
   simp only
